@@ -789,8 +789,12 @@ def matchValueTemplate (s : List Char) : Bool :=
   | _ => false
 
 /-- characters of a jinja2 name -/
-def isNameStart (c : Char) : Bool := c.isAlpha || c == '_'
-def isNameChar (c : Char) : Bool := c.isAlphanum || c == '_'
+def isNameStart (c : Char) : Bool :=
+  let n := c.toNat
+  (65 ≤ n && n ≤ 90) || n == 95 || (97 ≤ n && n ≤ 122)
+def isNameChar (c : Char) : Bool :=
+  let n := c.toNat
+  (48 ≤ n && n ≤ 57) || (65 ≤ n && n ≤ 90) || n == 95 || (97 ≤ n && n ≤ 122)
 
 def isName (w : List Char) : Bool :=
   match w with
@@ -802,7 +806,7 @@ inductive JParse where
   | ok (ps : List Piece)
   | syntaxError
   | foreign
-  deriving Repr
+  deriving Repr, DecidableEq
 
 def dropSpaces : List Char → List Char
   | [] => []
